@@ -53,7 +53,7 @@ func c16Build(mk func() ast.Vertex, fs []astx.Field, digits []int) ast.Vertex {
 		case astx.FPos:
 			fv.Set(reflect.ValueOf(&position.Position{StartLine: i + 1, EndLine: i + 2, StartPos: i + 3, EndPos: i + 4}))
 		case astx.FTok:
-			fv.Set(reflect.ValueOf(&token.Token{ID: token.T_STRING + token.ID(i), Value: []byte(fmt.Sprintf("t%d\"\n\\", i)),
+			fv.Set(reflect.ValueOf(&token.Token{ID: token.T_STRING + token.ID(i), Value: []byte(fmt.Sprintf("t%d\"\n\\%%d%%%%`", i)),
 				Position:     &position.Position{StartLine: 1, EndLine: 1, StartPos: i, EndPos: i + 1},
 				FreeFloating: []*token.Token{{ID: token.T_WHITESPACE, Value: []byte(" ")}, {ID: token.ID('#'), Value: []byte{}}, {ID: token.T_COMMENT, Value: []byte("/*`*/"), Position: &position.Position{StartLine: 2, EndLine: 3, StartPos: 4, EndPos: 5}}}}))
 		case astx.FToks:
@@ -73,7 +73,7 @@ func c16Build(mk func() ast.Vertex, fs []astx.Field, digits []int) ast.Vertex {
 			}
 		case astx.FValue:
 			if d == 1 {
-				fv.SetBytes([]byte(fmt.Sprintf("v%d\x00\xff\"", i)))
+				fv.SetBytes([]byte(fmt.Sprintf("v%d\x00\xff\"%%s%%%%%%", i)))
 			} else {
 				fv.SetBytes([]byte{})
 			}
